@@ -12,7 +12,7 @@ def build_driver():
                          roots=("ov_txn",), timeout=1800)
 
 
-def run_scenarios(exe, scenarios, jobs=14, timeout=1500):
+def run_scenarios(exe, scenarios, jobs=14, timeout=1500, _retry=True):
     """returns list of result dicts (same order as scenarios; missing => {'id':..,'fatal':'no result'})"""
     if not scenarios:
         return []
@@ -44,6 +44,33 @@ def run_scenarios(exe, scenarios, jobs=14, timeout=1500):
                     res[r["id"]] = r
                 except Exception:
                     pass
+    # scenarios without a result: the driver process died (a FATAL log or panic inside the client kills it together
+    # with the rest of its chunk) or timed out. Re-run each of them alone to isolate the culprit.
+    missing = [sc for sc in scenarios if sc["id"] not in res]
+    if missing and _retry:
+        from concurrent.futures import ThreadPoolExecutor
+        def alone(sc):
+            inp = os.path.join(d, f"alone-{abs(hash(sc['id']))}.jsonl")
+            outp = inp + ".out"
+            with open(inp, "w") as fh:
+                fh.write(json.dumps(sc) + "\n")
+            env = vlib.goenv(); env["TMPDIR"] = d
+            try:
+                p = subprocess.run([exe, outp], stdin=open(inp), stdout=subprocess.PIPE, stderr=subprocess.STDOUT, env=env, timeout=120, text=True, errors="replace")
+                rc, out = p.returncode, p.stdout
+            except subprocess.TimeoutExpired as ex:
+                rc, out = 124, (ex.stdout or b"").decode(errors="replace") if isinstance(ex.stdout, bytes) else (ex.stdout or "")
+            if os.path.exists(outp):
+                for line in open(outp):
+                    try:
+                        return json.loads(line)
+                    except Exception:
+                        pass
+            tail = [l for l in out.splitlines() if "FATAL" in l or l.startswith("panic") or "fatal error" in l][-2:] or out.splitlines()[-2:]
+            return {"id": sc["id"], "fatal": "driver process died while executing this scenario (exit %s): %s" % (rc, " | ".join(t[:400] for t in tail)), "died": True}
+        with ThreadPoolExecutor(max_workers=max(1, min(jobs, len(missing)))) as ex:
+            for sc, r in zip(missing, ex.map(alone, missing)):
+                res[sc["id"]] = r
     shutil.rmtree(d, ignore_errors=True)
     return [res.get(sc["id"], {"id": sc["id"], "fatal": "no result (driver died or timed out)"}) for sc in scenarios]
 
@@ -384,3 +411,143 @@ def project(sc, r):
                     if er.get("kind") == "locked":
                         lines.append("\t".join(["lockseen", c, hexn(er["lock"]["start"]), hexn(er["lock"]["ttl"])]))
     return lines, keyid
+
+
+# ------------------------------------------------------------------ C06: replay of one transaction's lock bookkeeping
+# (model coq/theories/Locks, driver ocaml/locks/driver.ml)
+_FAIL = {"err:conflict": "conflict", "err:exists": "exists", "err:deadlock": "deadlock", "err:lockwait": "timeout", "err:nowait": "nowait"}
+
+
+def locks_windows(r, client):
+    """splits the trace at the api events: {step index: [rpc events of `client` issued during that call]}"""
+    win, buf = {}, []
+    for e in r.get("trace", []):
+        if e["kind"] == "api":
+            win[e["f"].get("i")] = buf
+            buf = []
+        elif e.get("client") == client and e["kind"] in ("send", "deliver"):
+            buf.append(e)
+    return win
+
+
+def locks_replay_lines(sc, r, t="t1"):
+    """(lines for modelrun, expectations) for transaction t of a program result.
+    expectations: list of dict(i, bk, rpc_keys or None) in the order of the emitted E lines."""
+    kidx = {k: i + 1 for i, k in enumerate(sorted(sc["keys"]))}
+    hx = lambda ks: ",".join("%x" % kidx[k] for k in ks) if ks else "-"
+    unhex = lambda h: bytes.fromhex(h).decode()
+    cid = "c" + t.lstrip("t")
+    info = (r.get("txns") or {}).get(t)
+    if not info:
+        return [], []
+    S = info["start"]
+    win = locks_windows(r, cid)
+    lines, exp = [f"P\t{r['id']}\t{1 if info.get('pessimistic') else 0}"], []
+    others = [v.get("commit_ts", 0) for n, v in r["txns"].items() if n != t]
+    for s in r.get("steps", []):
+        if s.get("t") != t or s.get("skipped") or "bk" not in s:
+            continue
+        i, op = s["i"], s["op"]
+        evs = win.get(i, [])
+        sends = {e.get("req"): (e.get("f") or {}) for e in evs if e["kind"] == "send"}
+        rpc_keys = None
+        if op in ("set", "del"):
+            body = ["set", "%x" % kidx[sc["program"][i]["k"]]]
+        elif op in ("insert", "lock"):
+            st = dict(sc["program"][i])
+            if op == "insert":
+                # pessimistic: the driver buffers the insert and locks the key (statement-like); optimistic: buffer only
+                # (a failed pessimistic insert is discarded again by the driver: staging clean-up)
+                if not (info.get("pessimistic") and s.get("err")):
+                    lines.append("\t".join(["E", f"{i}a", "ins", "%x" % kidx[st["k"]]]))
+                if not info.get("pessimistic"):
+                    body = ["nop"]
+                    lines.append("\t".join(["E", str(i)] + body))
+                    exp.append({"i": i, "op": op, "bk": s["bk"], "rpc_keys": None, "err": s.get("err"), "line": lines[-1]})
+                    continue
+                st = {"ks": [st["k"]]}
+            locked, absent, lwc, sent = [], [], 0, set()
+            for e in evs:
+                f = e.get("f") or {}
+                sf = sends.get(e.get("req"), {})
+                if e.get("cmd") != "PessimisticLock" or sf.get("start") != S:
+                    continue
+                ks = [unhex(h) for h in sf.get("keys", [])]
+                if e["kind"] == "send":
+                    sent.update(ks)
+                    continue
+                if f.get("errors") or "regionerr" in f or "rpc_err" in f:
+                    continue
+                nf, ex, res = f.get("not_founds") or [], f.get("existence") or [], f.get("results") or []
+                for j, k in enumerate(ks):
+                    gone = (nf[j] if j < len(nf) else False) or bool(res and j < len(ex) and not ex[j] and (st.get("rv") or st.get("ce")))
+                    if gone:
+                        absent.append(k)
+                    if not (gone and st.get("loie")):
+                        locked.append(k)
+                for j, x in enumerate(f.get("lwc") or []):
+                    lwc = max(lwc, x)
+                if "lwc" not in f and any("Conflict" in x for x in res):
+                    lwc = max([c for c in others if c > s.get("for_update", 0)] or [s.get("for_update", 0) + 1])
+            err = s.get("err")
+            res = "ok" if not err else _FAIL.get(err, "other")
+            early = 1 if (err == "err:exists" and not sent) else 0
+            body = ["lock", hx(st["ks"]), *(str(int(bool(st.get(x)))) for x in ("rv", "ce", "loie")), "%x" % s.get("for_update", 0),
+                    str(early), hx(sorted(set(locked))), hx(sorted(set(absent))), "%x" % lwc, res]
+            rpc_keys = sorted(sent)
+        elif op in ("agg_start", "agg_retry", "agg_cancel", "agg_done"):
+            body = [op.replace("_", "")]
+        elif op == "rollback":
+            body = ["rollback"]
+        elif op == "commit":
+            pws = [(sends.get(e.get("req"), {}), e.get("f") or {}) for e in evs if e.get("cmd") == "Prewrite" and e["kind"] == "deliver" and sends.get(e.get("req"), {}).get("start") == S]
+            cms = [(sends.get(e.get("req"), {}), e.get("f") or {}) for e in evs if e.get("cmd") == "Commit" and e["kind"] == "deliver" and sends.get(e.get("req"), {}).get("start") == S]
+            okp = lambda f: not f.get("errors") and "regionerr" not in f and "rpc_err" not in f
+            onepc = bool(pws) and all(sf.get("onepc") for sf, f in pws) and (s.get("err") or all(f.get("onepc_commit") for sf, f in pws))
+            asyn = bool(pws) and not onepc and all(sf.get("async") for sf, f in pws[-1:]) and all(f.get("min_commit") for sf, f in pws if okp(f))
+            pw = sorted({unhex(h) for sf, f in pws if okp(f) for h in sf.get("keys", [])})
+            sync = sorted({unhex(h) for sf, f in cms if not f.get("error") and "regionerr" not in f and "rpc_err" not in f for h in sf.get("keys", [])})
+            res = "ok" if not s.get("err") else ("cfail" if any(e.get("cmd") == "Commit" and e["kind"] == "send" for e in evs) else "pfail")
+            body = ["commit", "1pc" if onepc else ("async" if asyn else "2pc"), hx(pw), hx(sync), res]
+        else:
+            body = ["nop"]
+        lines.append("\t".join(["E", str(i)] + body))
+        exp.append({"i": i, "op": op, "bk": s["bk"], "rpc_keys": rpc_keys, "err": s.get("err"), "line": lines[-1]})
+    if str(info.get("result", "")).startswith("rolledback(final)"):
+        lines.append("E\tfinal\trollback")
+    lines.append("D")
+    return lines, exp
+
+
+def locks_compare(sc, r, out_lines, exp, t="t1"):
+    """compares modelrun's R/F lines with the client's bookkeeping; returns (list of disagreements, model leftover keys)"""
+    kname = {("%x" % (i + 1)): k for i, k in enumerate(sorted(sc["keys"]))}
+    dec = lambda s: [] if s in ("-", "") else sorted(kname[x] for x in s.split(","))
+    bad, left = [], None
+    rs = {}
+    for ln in out_lines:
+        p = ln.split("\t")
+        if p[0] == "R":
+            rs[p[2]] = p
+        elif p[0] == "F":
+            left = dec(p[2])
+            if p[3] != "0":
+                bad.append(f"model did not drain: {p[3]} tasks left")
+        elif p[0] in ("EXC", "BAD"):
+            bad.append(ln)
+    for x in exp:
+        p = rs.get(str(x["i"]))
+        if p is None:
+            bad.append(f"step {x['i']}: no model output")
+            continue
+        bk = x["bk"]
+        m = {"locked": dec(p[3]), "locked_cnt": int(p[4]), "agg": p[5] == "1", "agg_cur": dec(p[6]), "agg_prev": dec(p[7])}
+        for fld in ("locked", "locked_cnt", "agg", "agg_cur", "agg_prev"):
+            if m[fld] != bk[fld]:
+                bad.append(f"step {x['i']} ({x['op']}): {fld} model={m[fld]} client={bk[fld]}")
+        # a failing call may stop before every batch is sent (the primary batch goes first)
+        if x["rpc_keys"] is not None and (dec(p[8]) != x["rpc_keys"] if not x["err"] else not set(x["rpc_keys"]) <= set(dec(p[8]))):
+            bad.append(f"step {x['i']} (lock): keys sent to the store model={dec(p[8])} client={x['rpc_keys']}")
+    if left is None:
+        bad.append("no final model state")
+    return bad, left
